@@ -63,7 +63,7 @@ pub fn factorial_f64(x: f64, fl: &Flags) -> R<f64> {
     if x < 0.0 && !fl.scope_only.get() {
         let dist = (x - x.round()).abs();
         // (relative band of 4e-6 |x|: the reflection formula rounds pi x, an error of |x| eps / dist in the result)
-        if dist > 0.0 && (dist < 1e-7 || dist < 4e-6 * x.abs() || (fl.tol.get() > 0.0 && dist < 0.05)) { return Err(Stop::Unspec("FactorialNearPole")); }
+        if dist > 0.0 && (dist < 1e-7 || dist < 4e-6 * x.abs() || (fl.tol.get() > 0.0 && dist < 0.25)) { return Err(Stop::Unspec("FactorialNearPole")); }
     }
     // Gamma amplifies the relative error of its argument by about x ln x
     if fl.tol.get() > 0.0 && !fl.scope_only.get() && !(x.abs() <= 30.0) { return Err(Stop::Unspec("ErrorAmplificationAfterInexactOperation")); }
